@@ -153,6 +153,42 @@ def events_for(darsia, rng, shape, h, tid, integer_h):
     return ev
 
 
+def twin_grids(ck, darsia, quick):
+    """Operators of two grids that agree in shape, cell / face counts and voxel volume and differ in the voxel sizes, built and
+    applied along every interleaving of spec/TwoObjects.tla: each grid's operators are those of ITS voxel sizes."""
+    from lib import twoobj
+    hists = twoobj.histories(ck)
+    total = 0
+    tspecs = []
+    for shape, ha, hb in (((3, 4), [0.5, 2.0], [2.0, 0.5]), ((2, 3, 2), [0.5, 1.0, 2.0], [2.0, 0.25, 2.0]), ((5,), [0.5], [1.5])):
+        u = np.arange(1, 1 + int(darsia.Grid(shape, ha).num_faces), dtype=float)
+
+        def make(o, shape=shape, ha=ha, hb=hb):
+            g = darsia.Grid(shape, ha if o == "a" else hb)
+            ops = {"grid": g, "div": darsia.FVDivergence(g), "mc": darsia.FVMass(g, "cells"), "mf": darsia.FVMass(g, "faces")}
+            if g.dim >= 2:
+                ops["tang"] = darsia.FVTangentialFaceReconstruction(g)
+            return ops
+
+        def use(o, ops, u=u):
+            g = ops["grid"]
+            out = [ops["div"].mat.toarray(), ops["mc"].mat.toarray(), ops["mf"].mat.toarray(), np.asarray(darsia.face_to_cell(g, u)),
+                   np.asarray(darsia.cell_to_face_average(g, np.arange(1.0, 1.0 + g.num_cells).reshape(g.shape, order="F"), "harmonic")),
+                   np.asarray(darsia.FVDivergence(g).mat @ u)]
+            if "tang" in ops:
+                out += [np.asarray(x) for x in ops["tang"](u, False)]
+                out.append(np.asarray(darsia.FVFullFaceReconstruction(g)(u)))
+            return out
+
+        def same(x, y):
+            return len(x) == len(y) and all(p.shape == q.shape and np.allclose(p, q, rtol=1e-12, atol=1e-14) for p, q in zip(x, y))
+
+        sel = hists if not quick else [h for h in hists if len(h) <= 4] + hists[-6:]
+        tspecs.append((sel, "grid-" + "x".join(map(str, shape)), make, use, same, "twin:" + "x".join(map(str, shape))))
+    total = twoobj.run(ck, "C06", tspecs)
+    return total
+
+
 def run(ck, replay=None):
     ck.sany("MC_FV", "Trace_FV")
     r = ck.model_check("MC_FV", f"MC_FV_{ck.tier}.cfg", workers=8 if ck.tier == "quick" else 16, big=(ck.tier == "thorough"))
@@ -160,6 +196,7 @@ def run(ck, replay=None):
     darsia = import_darsia()
     rng = random.Random(ck.seed)
     quick = ck.tier == "quick"
+    ntwin = twin_grids(ck, darsia, quick)
     # shapes beyond the model-checking bound, within C07's range
     extra = [(rng.randint(1, 12),) for _ in range(2 if quick else 8)]
     extra += [(rng.randint(1, 7), rng.randint(1, 7)) for _ in range(4 if quick else 25)]
@@ -182,7 +219,8 @@ def run(ck, replay=None):
         e = b["event"]
         sig = f"C06:{b['clause']}:{e['op']}" + (f":{e['kind']}:{e['mode']}" if e["op"] == "c2f" else (":" + e["mode"] if e["op"] == "mass" else "")) + f":{len(e['G']['shape'])}d"
         ck.violation(sig, f"{e['op']} violates {b['clause']}", dict(info[b["tid"]], op=e["op"], clause=b["clause"]))
-    ck.cov["evaluations"] = len(events)
+    ck.cov["evaluations"] = len(events) + ntwin
+    ck.cov["twin_object_histories"] = ntwin
     ck.cov["distinct_nontrivial"] = len({(tuple(c[0]), tuple(c[1])) for c in cases if np.prod(c[0]) > 1})
     ck.cov["rule"] = "every shape enumerated by MC_FV plus seeded shapes of the C07 range, each with integer and with float anisotropic voxel sizes; operators applied to seeded integer fluxes / cell fields and rational reference points; non-trivial = grid with more than one cell"
     ck.cov["samples"] = [{k: v for k, v in events[0].items() if k != "G"}, info["g0"]]
